@@ -30,6 +30,28 @@ DATATYPES = {
     "string-list": (["a b c", "one"], None),
     "inet-address": (["host:80", "127.0.0.1:8080", ":99", "Example.COM:1"],
                      "host:port"),
+    # the rest of the stock datatypes.  The existing-* family looks at the
+    # real file system: names that exist on every Linux system; the refused
+    # value lies UNDER A REGULAR FILE (the look-up fails with ENOTDIR, not
+    # ENOENT)
+    "existing-file": (["/etc/passwd"], "/etc/passwd/child"),
+    "existing-path": (["/", "/etc/passwd"], "/etc/passwd/child"),
+    "existing-directory": (["/", "/etc"], "/etc/passwd"),
+    "existing-dirpath": (["/zcsim-no-such-name", "/etc/x"],
+                         "/etc/passwd/child/x"),
+    "dotted-name": (["a.b.c", "x"], "a..b"),
+    "dotted-suffix": ([".x.y", ".z"], None),
+    "ipaddr-or-hostname": (["localhost", "127.0.0.1", "Example.COM", "::1"],
+                           "1.2.3.4.5"),
+    "inet-binding-address": (["host:80", ":99", "8080"], "host:port"),
+    "inet-connection-address": (["host:80", "8080"], "host:port"),
+    "socket-address": (["127.0.0.1:80", "/var/run/sock"], "host:port"),
+    "socket-binding-address": (["127.0.0.1:80", "/var/run/sock", "81"],
+                               "host:port"),
+    "socket-connection-address": (["127.0.0.1:80", "/var/run/sock", "81"],
+                                  "host:port"),
+    # (an unknown unit: the stock function raises TypeError, not ValueError)
+    "timedelta": (["4w 2d", "1.5h", "14s"], "5x"),
 }
 for _n in range(8):
     DATATYPES["zcsim.simdt.conv_%d" % _n] = (["v1", "plain text", "Z"], "!bad")
